@@ -162,8 +162,17 @@ static void run_raw(std::vector<int> const& w, std::vector<std::uint64_t> const&
         long long j = (long long) std::floor(std::ldexp((long double) u, S24));
         js.push_back(j >= D ? D - 1 : j);
     }
-    hep::discrete_distribution<std::size_t, T> d(wt.begin(), wt.end());
-    for (std::size_t k = 0; k != raws.size(); ++k) idx.push_back((long long) d(e));
+    // the selector is an object like any other: a copy of it (the original is gone), an object that was assigned to, or one built from a range of
+    // integers (scale 1: the weights are the integers themselves) selects as the original does
+    static int variant = 0;
+    typedef hep::discrete_distribution<std::size_t, T> dd_t;
+    dd_t* orig = (++variant % 4 == 3 && scale == 1.0L) ? new dd_t(w.begin(), w.end()) : new dd_t(wt.begin(), wt.end());
+    std::vector<T> other(3, T(1));
+    dd_t d(other.begin(), other.end());
+    if (variant % 2) { dd_t c(*orig); d = c; } else { d = *orig; }
+    dd_t d2(d);
+    delete orig;
+    for (std::size_t k = 0; k != raws.size(); ++k) idx.push_back((long long) (k % 2 ? d(e) : d2(e)));
     vt::ev("Pick").s("via", "dd-raw").s("T", vt::type_name<T>::get()).s("scale", sc).a("w", w).a("js", js).a("idx", idx)
         .i("draws", (long long) e.pos()).emit();
 }
